@@ -34,7 +34,7 @@ def uarr_pairs(tier, seed):
         if cls == 0:          # unrelated
             c = rand_multiset(rnd, rnd.randrange(1, 13))
         elif cls == 1:        # same support, perturbed multiplicities (crossing 255/256 both ways)
-            c = {x: max(0, m + rnd.choice([-300, -2, -1, 0, 0, 1, 2, 254, 255, 256])) for x, m in p.items()}
+            c = {x: max(0, m + rnd.choice([-300, -257, -256, -255, -254, -2, -1, 0, 0, 1, 2, 254, 255, 256, 257, 300])) for x, m in p.items()}
             c = {x: m for x, m in c.items() if m}
         elif cls == 2:        # equal as multisets, different order
             c = dict(p)
